@@ -53,9 +53,9 @@ class TLCResult:
         m = re.search(r"Invariant (\S+) is violated", out)
         self.violated = m.group(1) if m else None
         if self.violated is None:
-            m = re.search(r"Action property (\S+) is violated|Temporal properties were violated", out)
+            m = re.search(r"Action property (\S+) is violated|Temporal property (\S+) was violated|Temporal properties were violated", out)
             if m:
-                self.violated = m.group(1) or "temporal"
+                self.violated = m.group(1) or m.group(2) or "temporal"
         self.deadlock = "Deadlock reached" in out
         self.parse_failed = "Parsing or semantic analysis failed" in out or "*** Errors" in out
         self.errors = [l for l in out.splitlines() if re.search(r"\bError\b|rror:", l)]
